@@ -47,7 +47,8 @@ PseudoStep(j) ==
 
 ObjectStep(j) ==
   LET T == R.periods[j]
-      tmin == IF FEq(R.periods[1], Zero) THEN R.periods[2] ELSE R.periods[1]
+      \* (a record may list only SOME of the object's periods: it then names the object's shortest non-zero period itself)
+      tmin == IF "tmin" \in DOMAIN R THEN R.tmin ELSE IF FEq(R.periods[1], Zero) THEN R.periods[2] ELSE R.periods[1]
       kmin == KMin(tmin, R.dt, R.q)
   IN IF FEq(T, Zero) THEN Fails(FEq(R.sd[j], Zero) /\ FEq(R.sa[j], Pga), "PgaBelow6dt")
      ELSE LET w == FDiv(TwoPi, T)
